@@ -65,6 +65,15 @@ Definition bk (i : nat) (zs : list zt) (jz : nat * zt) : mact :=
              end;
      mstart := mstart a; mtaint := mtaint a |}.
 
+Definition m_f11 (m : monst) (e o : list N) : bool :=
+  match e with
+  | [3; j; _] => match nth_error (macts m) (N.to_nat j), nth_error (pairs o) (N.to_nat j) with
+                 | Some a, Some p => mcaller a && mcanc a && N.eqb (fst p) 1
+                 | _, _ => false
+                 end
+  | _ => false
+  end%N.
+
 Lemma mon_once_eq m e o :
   mon_once m e o =
   let i := mstepno m in
@@ -83,7 +92,8 @@ Lemma mon_once_eq m e o :
    (if existsb is_cblocked zs || (existsb is_blocked zs && negb (existsb is_active zs)) then [(16, 5)] else []) ++
    (if existsb is_panic zs then [(16, 8)] else []) ++
    (if existsb (bad_taint acts2) newly then [(16, 9)] else []) ++
-   (if existsb is_ctxerr zs then [(16, 10)] else [])).
+   (if existsb is_ctxerr zs then [(16, 10)] else []) ++
+   (if m_f11 m e o then [(16, 11)] else [])).
 Proof. reflexivity. Qed.
 
 (* ------------------------------------------------------------------ the simulation relation *)
@@ -691,6 +701,27 @@ Proof.
   - congruence.
 Qed.
 
+(* clause 11: a caller whose context was cancelled before the step and that is let run from gate 1 has returned *)
+Lemma cl11 m h e h' : HR h -> R m h -> hdec h e h' -> m_f11 m e (obs h') = false.
+Proof.
+  intros (HI & HSs & HMh) (RL & RA & RS) D. unfold m_f11.
+  destruct (hdec_shape _ _ _ D) as [[c ->]|[(i & ch & ->)|[[i ->]|(i & k & ->)]]]; try reflexivity.
+  destruct (nth_error (macts m) (N.to_nat i)) as [mx|] eqn:Gm; [|reflexivity].
+  destruct (nth_error (pairs (obs h')) (N.to_nat i)) as [p|] eqn:Gp; [|reflexivity].
+  destruct (mcaller mx) eqn:Ecl; [|reflexivity]. destruct (mcanc mx) eqn:Ecc; [|reflexivity]. cbn [andb].
+  apply N.eqb_neq.
+  destruct (nth_error (hmap h) (N.to_nat i)) as [hx|] eqn:Gh;
+    [|apply nth_error_None in Gh; apply nth_error_nth_len in Gm; lia].
+  destruct (RA _ _ _ Gm Gh) as [_ Ha]. destruct hx as [a|g]; cbn [arel] in Ha.
+  - destruct Ha as (x & Gx & _ & A2 & _).
+    assert (Hc : ctx_cancelled (ms h) a = true) by (unfold ctx_cancelled; rewrite Gx; congruence).
+    destruct (hdec_cancelled_ret _ _ _ _ _ D Gh Hc) as (x' & Gx' & Hr).
+    rewrite pairs_obs in Gp. apply nth_error_map_inv in Gp as [hx' [Gh' ->]].
+    rewrite (hdec_hmap_prefix _ _ _ _ _ D Gh) in Gh'. inversion Gh'; subst hx'. cbn [codep]. rewrite Gx'.
+    unfold ccode. destruct (cp x') as [| |r src]; try discriminate. destruct r; discriminate.
+  - destruct Ha as (y & _ & [Hcl _] & _). congruence.
+Qed.
+
 Lemma mon_step m h e h' o : HR h -> R m h -> hstep h e = Some (h', o) ->
   exists m', mon_once m e o = (m', []) /\ R m' h' /\ HR h'.
 Proof.
@@ -710,6 +741,7 @@ Proof.
   rewrite (existsb_false_intro is_panic) by (intros z Hz; exact (cl8 _ _ _ _ HMid z Hz)).
   rewrite (existsb_filter_false (bad_taint A2) is_newly) by (intros z Hz _; exact (cl9 _ _ _ _ HMid HI' HM' z Hz)).
   rewrite (existsb_false_intro is_ctxerr) by (intros z Hz; exact (cl10 _ _ _ _ HMid z Hz)).
+  rewrite (cl11 _ _ _ _ HRh HRm D).
   cbn [orb app]. eexists. split; [reflexivity|]. split; [|exact (conj HI' (conj HS' HM'))].
   exact (book_rel _ _ _ _ _ HMid HI' HS' HM' HSR).
 Qed.
